@@ -401,6 +401,11 @@ func (g *gen) block(d int) string {
 		}
 		return "($add := function($a, $b){$a + $b}; $inc := $add(?, 1); $inc(" + g.numLit() + "))"
 	case 5:
+		if g.r.Intn(2) == 0 {
+			// the chain operator in front of calls with several written arguments
+			return g.pick(`b ~> $replace("z", "Z", 1)`, `c.a ~> $replace("a", "o", 2)`, `b ~> $substring(1, 2)`, `b ~> $pad(9, "-")`, `k ~> function($p, $q, $r, $s){[$p, $q, $r, $s]}(1, 2, 3)`,
+				`a ~> $zip(a, a, a)`, `b ~> $split("z", 5)`, `id ~> $formatNumber("#,##0.00", {})`, `b ~> $replace("z", "Z", 1) ~> $replace("q", "Q", 1)`)
+		}
 		return "(" + g.operand(d) + " ~> " + g.pick("$string", "$count", "$sum", "function($v){$v}") + ")"
 	case 8:
 		f := func() string {
@@ -490,7 +495,7 @@ func (g *gen) program() string {
 			return "$count($keys(" + g.pick("$[0]", "a[0]") + ")) = $count($spread(" + g.pick("$[0]", "a[0]") + "))"
 		}
 	case "rx":
-		atoms := []string{"a", "b", "c", ".", "[ab]", "[^a]", "\\d", "(a)", "(b)", "(a|b)", "(a(b)?)", "(?:ab)", "é"}
+		atoms := []string{"a", "b", "c", ".", "[ab]", "[^a]", "\\d", "(a)", "(b)", "(a|b)", "(a(b)?)", "(?:ab)", "é", "\\\\", "\\.", "\\(", "[/]", "\\b"}
 		quant := []string{"", "", "", "*", "+", "?", "{1,2}", "*?"}
 		pat := ""
 		for i, n := 0, 1+g.r.Intn(4); i < n; i++ {
@@ -542,7 +547,8 @@ func (g *gen) program() string {
 		case 6:
 			return "$replace(" + sub() + ", " + re + ", function($m){\"<\" & $m.match & \":\" & $join($m.groups, \",\") & \">\"}" + lim + ")"
 		case 7:
-			return "(" + re + ")(" + sub() + ")" + g.pick("", ".next()", ".next().next()", ".match", ".next().groups", ".start", ".next().end")
+			// (a block cannot begin with a regex literal and a member cannot be called inside a path: both go through variables)
+			return "($r := " + re + "; $m := $r(" + sub() + "); " + g.pick("$m", "$n := $m.next; $n()", "$n := $m.next; $m2 := $n(); $n2 := $m2.next; $n2()", "$m.match", "$n := $m.next; $n().groups", "$m.start", "$n := $m.next; $n().end", "[$m.groups, $r(\"ab\").match, $m.match]") + ")"
 		default:
 			return sub() + " ~> $match(" + re + ")"
 		}
